@@ -750,6 +750,10 @@ def make_api_module(I, registry):
         I_.ctx.fresh_vars[name] = ("pred", fn)
         return NativeFn("pred:" + name, lambda I2, a, k: mk_bool(fn(zi(a[0]))))
 
+    @nf("exact_rational_floats")
+    def _real_floats(I_, args, kw):
+        I_.real_floats = bool(args[0]) if args else True
+
     @nf("enable_guarded_collections")
     def _guarded(I_, args, kw):
         I_.guarded = True
